@@ -27,6 +27,13 @@ mod operation;
 mod statement;
 mod ty;
 
+#[cfg(feature = "verif")]
+pub mod verif_lex {
+    pub use super::lex::result::{LexErr, LexResult};
+    pub use super::lex::token::{Lex, Token};
+    pub use super::lex::tokenize;
+}
+
 impl FromStr for AST {
     type Err = Box<ParseErr>;
 
